@@ -1,7 +1,8 @@
 #!/bin/sh
 # Independent re-check of every compiled property module (and everything it depends on) with coqchk,
 # printing the axioms the whole development relies on.  Run when no check is running (checks recompile .vo files).
-# Takes about 3 minutes.  Last recorded result: DESIGN.md section 10.3.
+# Run it right after a pass of all twenty checks (tools/sweep.sh 0): a generated or link .vo compiled by hand against an older
+# dependency makes coqchk fail with "Type error: ActualType".  Takes about 3 minutes.  Last recorded result: DESIGN.md section 10.3.
 cd "$(dirname "$0")/../coq" || exit 2
 mods=""
 for f in theories/Properties/C*.v; do b=$(basename "$f" .v); [ -f "theories/Properties/$b.vo" ] && mods="$mods QV.Properties.$b"; done
